@@ -852,6 +852,21 @@ def sym_exp(x):
     c = CTX
     if key in c._aux_cache:
         return c._aux_cache[key]
+    # exp(q y) = exp(y)^q for an integer q when exp(y) already exists (e.g. exp(-2 k (I-1)) next to exp(-k (I-1)), exp(-a) next to exp(a))
+    if x.d.is_const() and not x.n.is_zero():
+        for vid, (kind, args) in list(c.auxdef.items()):
+            if kind != "exp":
+                continue
+            y = args[0]
+            if not y.d.is_const() or y.n.is_zero() or set(y.n.t) != set(x.n.t):
+                continue
+            m0 = next(iter(y.n.t))
+            q = (x.n.t[m0] / x.d.const_value()) / (y.n.t[m0] / y.d.const_value())
+            if q.denominator == 1 and abs(q) <= 8 and all((x.n.t[m] / x.d.const_value()) == q * (y.n.t[m] / y.d.const_value()) for m in y.n.t):
+                base = Sym(Poly.var(vid))
+                out = base ** int(q)
+                c._aux_cache[key] = out
+                return out
     r = c.var(f"exp_{len(c.names)}", shadow=Fraction(math.exp(float(x.shadow()))), kind="aux")
     c.auxdef[_vid(r)] = ("exp", (x,))
     c.side.append(Cond(r.n, ">", "exp positive"))
